@@ -143,14 +143,16 @@ where
     let shared = Arc::new(Mutex::new(Stats::new()));
     let cur = Arc::new(AtomicU64::new(lo));
     let started = Arc::new(AtomicU64::new(now_ms()));
+    let started_cpu = Arc::new(AtomicU64::new(cpu_ms()));
     let done = Arc::new(AtomicBool::new(false));
     {
-        let (shared, cur, started, done) = (shared.clone(), cur.clone(), started.clone(), done.clone());
+        let (shared, cur, started, done, started_cpu) = (shared.clone(), cur.clone(), started.clone(), done.clone(), started_cpu.clone());
         std::thread::Builder::new()
             .stack_size(BIG_STACK)
             .spawn(move || {
                 for i in lo..hi {
                     cur.store(i, Ordering::SeqCst);
+                    started_cpu.store(cpu_ms(), Ordering::SeqCst);
                     started.store(now_ms(), Ordering::SeqCst);
                     let mut local = Stats::new();
                     f(&mut local, i);
@@ -168,13 +170,44 @@ where
             println!("{}", serde_json::json!({"stats": st.to_json(), "hang": serde_json::Value::Null, "done_upto": hi}));
             std::process::exit(0);
         }
-        if now_ms().saturating_sub(started.load(Ordering::SeqCst)) > per_case_ms {
+        // The limit is on CPU time consumed by this worker process since the case started, so that a loaded
+        // machine (where a case may get a small share of a core) is never mistaken for a hang; a wall-clock
+        // backstop of 30x the limit covers a subject that blocks without using the CPU.
+        let s0 = started.load(Ordering::SeqCst);
+        let c0 = started_cpu.load(Ordering::SeqCst);
+        // re-read `started` to make sure both values belong to the same case
+        if s0 != started.load(Ordering::SeqCst) {
+            continue;
+        }
+        if cpu_ms().saturating_sub(c0) > per_case_ms || now_ms().saturating_sub(s0) > per_case_ms.saturating_mul(30) {
             let idx = cur.load(Ordering::SeqCst);
             let st = shared.lock().unwrap().clone();
             println!("{}", serde_json::json!({"stats": st.to_json(), "hang": idx, "done_upto": idx}));
             std::process::exit(3);
         }
     }
+}
+
+/// CPU time (user + system) consumed so far by this process, in milliseconds.
+pub fn cpu_ms() -> u64 {
+    let mut ts = libc::timespec { tv_sec: 0, tv_nsec: 0 };
+    // SAFETY: plain syscall writing into a local timespec
+    unsafe {
+        libc::clock_gettime(libc::CLOCK_PROCESS_CPUTIME_ID, &mut ts);
+    }
+    (ts.tv_sec as u64) * 1000 + (ts.tv_nsec as u64) / 1_000_000
+}
+
+/// CPU time (user + system) consumed so far by another process, in milliseconds (from /proc/<pid>/stat).
+pub fn proc_cpu_ms(pid: u32) -> Option<u64> {
+    let s = std::fs::read_to_string(format!("/proc/{}/stat", pid)).ok()?;
+    let rest = &s[s.rfind(')')? + 1..];
+    let f: Vec<&str> = rest.split_whitespace().collect();
+    // after the command name: state is f[0]; utime and stime are fields 14 and 15 of the line, i.e. f[11], f[12]
+    let ticks: u64 = f.get(11)?.parse::<u64>().ok()? + f.get(12)?.parse::<u64>().ok()?;
+    // SAFETY: sysconf has no preconditions
+    let hz = unsafe { libc::sysconf(libc::_SC_CLK_TCK) }.max(1) as u64;
+    Some(ticks * 1000 / hz)
 }
 
 fn now_ms() -> u64 {
@@ -184,6 +217,16 @@ fn now_ms() -> u64 {
 pub enum Death {
     Hang(u64),
     Crash(u64, String),
+}
+
+/// true if running case `i` alone in a fresh worker process dies or hangs again (verdict discipline: a
+/// worker death is only reported when the single case reproduces it)
+pub fn death_reproduces(id: &str, tier: &str, sub: &str, i: u64) -> bool {
+    let (res, _) = spawn_worker(id, tier, sub, i, i + 1);
+    match res {
+        Some(v) => v["hang"].as_u64().is_some(),
+        None => true,
+    }
 }
 
 fn spawn_worker(id: &str, tier: &str, sub: &str, lo: u64, hi: u64) -> (Option<serde_json::Value>, String) {
